@@ -46,6 +46,7 @@ CONSTANTS
   Kinds,         \* extra message kinds offered by the environment
   MaxIn, MaxT, MaxFlips, MaxHolds,
   WriteFaults, LinkFaults, AllowCancel, MaxQueries,
+  FwdFaults,     \* the forwarding-state read of an RA generation may fail (classes other / sys)
   MaxSessions,   \* connections the Dialer may open one after the other (1 = no re-dial in the model)
   Sec            \* one second in ticks (for the monitor's rounding; 1 = waits are whole ticks)
 
@@ -67,6 +68,7 @@ VARIABLES
   ls, lsown,     \* listener: [pc, i, timer, msg]; Listen's own cancel called
   intr, dl,      \* interrupt goroutine; read deadline forced
   lw, linkEv,    \* link watcher goroutine; pending link event
+  wcl,           \* the link-state watcher has ended: the subscription channel is closed (C19)
   ipc, inbox,    \* ipC channel; socket receive queue
   fwd,           \* kernel forwarding flag
   held,          \* destinations whose WriteTo is held open by the driver
@@ -75,7 +77,7 @@ VARIABLES
   nIn, nFlip, nHold, nQuery
 
 vars == <<now, parent, term, egc, egerr, main, ret, sch, stopped, tasks, nextId, wk, mc,
-          ls, lsown, intr, dl, lw, linkEv, ipc, inbox, fwd, held, rq, conn, nIn, nFlip, nHold, nQuery>>
+          ls, lsown, intr, dl, lw, linkEv, wcl, ipc, inbox, fwd, held, rq, conn, nIn, nFlip, nHold, nQuery>>
 
 IsMc(d) == d = ALLNODES
 EgC  == egc \/ parent = "canceled"     \* errgroup ctx is a child of Run's ctx
@@ -92,7 +94,9 @@ Recoverable(e) == e \in {"linkchange", "readerrsys", "txerrsys"}
 
 \* observable events, in the vocabulary of AdvReq (k = 1: one session)
 EvT         == [t |-> now]
-EvFwd       == [val |-> fwd, ok |-> TRUE, t |-> now]
+EvFwd       == [val |-> fwd, ok |-> TRUE, cls |-> "", t |-> now]
+EvFwdErr(c) == [val |-> FALSE, ok |-> FALSE, cls |-> c, t |-> now]
+FwdRes      == IF FwdFaults THEN {"ok", "other", "sys"} ELSE {"ok"}
 EvWC(d, l)  == [k |-> conn, dst |-> d, mc |-> IsMc(d), type |-> "ra", life |-> l, body |-> "b", t |-> now]
 EvWRc(d, res) == [k |-> conn, dst |-> d, mc |-> IsMc(d), ok |-> (res = "ok"), cls |-> IF res = "ok" THEN "" ELSE res, t |-> now]
 EvWR(d, ok) == EvWRc(d, IF ok THEN "ok" ELSE "other")
@@ -116,7 +120,7 @@ Init ==
   /\ ipc = <<>> /\ inbox = <<>> /\ fwd \in BOOLEAN /\ held = {}
   /\ rq = ReqInit([unicast |-> UnicastOnly, cfglife |-> CfgLife, mon |-> MonitorMode, strict |-> MinIv > MaxT,
                   quiet |-> (MaxIn = 0 /\ MinIv >= 2 * MinDelay), miniv |-> MinIv, maxiv |-> MaxIv])
-  /\ conn = 1
+  /\ conn = 1 /\ wcl = FALSE
   /\ nIn = 0 /\ nFlip = 0 /\ nHold = 0 /\ nQuery = 0
 
 \* errgroup: first error wins and cancels the group context
@@ -127,9 +131,11 @@ Fail(e) == /\ egerr' = IF egerr = NONE THEN e ELSE egerr
 (* main goroutine: Run -> Prepare -> initial send -> advertise -> eg.Wait -> shutdown *)
 M_InitSend ==
   /\ main = "init"
-  /\ \E res \in (IF WriteFaults /\ ~UnicastOnly /\ ~MonitorMode THEN {"ok", "other", "sys"} ELSE {"ok"}) :
+  /\ \E res \in (IF WriteFaults /\ ~UnicastOnly /\ ~MonitorMode THEN {"ok", "other", "sys"} ELSE {"ok"})
+                \cup (IF FwdFaults /\ ~UnicastOnly /\ ~MonitorMode THEN {"fwdother", "fwdsys"} ELSE {}) :
        /\ rq' = LET r1 == OnDial(rq, [k |-> conn, res |-> "ok", t |-> now]) IN
                 IF UnicastOnly \/ MonitorMode THEN r1  \* send() skips multicast before building anything; a monitor sends nothing
+                ELSE IF res \in {"fwdother", "fwdsys"} THEN OnFwd(r1, EvFwdErr(IF res = "fwdsys" THEN "sys" ELSE "other"))
                 ELSE OnWRet(OnWCall(Gen(r1), EvWC(ALLNODES, Life)), EvWRc(ALLNODES, res))
        /\ main' = "egwait"
        /\ IF res = "ok"
@@ -140,8 +146,8 @@ M_InitSend ==
           ELSE \* the initial RA could not be sent: fn returns that error before any goroutine is started
                /\ sch' = [sch EXCEPT !.pc = "done"] /\ mc' = [mc EXCEPT !.pc = "done"]
                /\ ls' = [ls EXCEPT !.pc = "done"] /\ lw' = "done" /\ intr' = "done"
-               /\ Fail(IF res = "sys" THEN "txerrsys" ELSE "txerr")
-  /\ UNCHANGED <<now, parent, term, ret, stopped, tasks, nextId, wk, lsown, dl, linkEv, ipc, inbox, fwd, held, conn, nIn, nFlip, nHold, nQuery>>
+               /\ Fail(IF res \in {"sys", "fwdsys"} THEN "txerrsys" ELSE "txerr")
+  /\ UNCHANGED <<now, parent, term, ret, stopped, tasks, nextId, wk, lsown, dl, linkEv, wcl, ipc, inbox, fwd, held, conn, nIn, nFlip, nHold, nQuery>>
 
 GroupDone == sch.pc = "done" /\ mc.pc = "done" /\ ls.pc = "done" /\ lw = "done"
 
@@ -154,7 +160,7 @@ M_EgDone ==
           ELSE /\ main' = "ret" /\ ret' = egerr
                /\ rq' = OnRet(OnDone(rq, EvK), [res |-> IF Recoverable(egerr) /\ parent = "canceled" THEN "nil" ELSE "err", t |-> now])
      ELSE /\ main' = "shutdown" /\ ret' = ret /\ rq' = rq
-  /\ UNCHANGED <<now, parent, term, egc, egerr, sch, stopped, tasks, nextId, wk, mc, ls, lsown, intr, dl, lw, linkEv, ipc, inbox, fwd, held, conn, nIn, nFlip, nHold, nQuery>>
+  /\ UNCHANGED <<now, parent, term, egc, egerr, sch, stopped, tasks, nextId, wk, mc, ls, lsown, intr, dl, lw, linkEv, wcl, ipc, inbox, fwd, held, conn, nIn, nFlip, nHold, nQuery>>
 
 \* Dialer.init after a recoverable error: first retry at once; select { <-ctx.Done() ; <-time.After(0) } may go either
 \* way when a stop request is already pending. A successful re-dial starts a fresh session on a new connection.
@@ -176,24 +182,27 @@ D_Redial ==
         /\ ls' = [pc |-> "off", i |-> 0, timer |-> 0, msg |-> NONE]
         /\ lsown' = FALSE /\ intr' = "off" /\ dl' = FALSE /\ lw' = "off" /\ linkEv' = FALSE
         /\ ipc' = <<>> /\ inbox' = <<>>
-  /\ UNCHANGED <<now, parent, term, nextId, fwd, held, nIn, nFlip, nHold, nQuery>>
+  /\ UNCHANGED <<now, parent, term, nextId, wcl, fwd, held, nIn, nFlip, nHold, nQuery>>
 
 \* shutdown(): terminate() false, or unicast-only (send() skips multicast) => nothing
 M_ShutCall ==
   /\ main = "shutdown"
   /\ IF term /\ ~UnicastOnly /\ ~MonitorMode
-     THEN /\ rq' = OnWCall(OnFwd(rq, EvFwd), EvWC(ALLNODES, 0))
-          /\ main' = "shutwrite" /\ ret' = ret
+     THEN \/ /\ rq' = OnWCall(OnFwd(rq, EvFwd), EvWC(ALLNODES, 0))
+             /\ main' = "shutwrite" /\ ret' = ret
+          \/ /\ FwdFaults                                  \* the final RA cannot be built: only logged
+             /\ \E c \in {"other", "sys"} : rq' = OnRet(OnDone(OnFwd(rq, EvFwdErr(c)), EvK), [res |-> "nil", t |-> now])
+             /\ main' = "ret" /\ ret' = "nil"
      ELSE /\ rq' = OnRet(OnDone(rq, EvK), [res |-> "nil", t |-> now])
           /\ main' = "ret" /\ ret' = "nil"
-  /\ UNCHANGED <<now, parent, term, egc, egerr, sch, stopped, tasks, nextId, wk, mc, ls, lsown, intr, dl, lw, linkEv, ipc, inbox, fwd, held, conn, nIn, nFlip, nHold, nQuery>>
+  /\ UNCHANGED <<now, parent, term, egc, egerr, sch, stopped, tasks, nextId, wk, mc, ls, lsown, intr, dl, lw, linkEv, wcl, ipc, inbox, fwd, held, conn, nIn, nFlip, nHold, nQuery>>
 
 M_ShutRet ==
   /\ main = "shutwrite" /\ ALLNODES \notin held
   /\ \E res \in (IF WriteFaults THEN {"ok", "other", "sys"} ELSE {"ok"}) :      \* a failure here is only logged
        rq' = OnRet(OnDone(OnWRet(rq, EvWRc(ALLNODES, res)), EvK), [res |-> "nil", t |-> now])
   /\ main' = "ret" /\ ret' = "nil"
-  /\ UNCHANGED <<now, parent, term, egc, egerr, sch, stopped, tasks, nextId, wk, mc, ls, lsown, intr, dl, lw, linkEv, ipc, inbox, fwd, held, conn, nIn, nFlip, nHold, nQuery>>
+  /\ UNCHANGED <<now, parent, term, egc, egerr, sch, stopped, tasks, nextId, wk, mc, ls, lsown, intr, dl, lw, linkEv, wcl, ipc, inbox, fwd, held, conn, nIn, nFlip, nHold, nQuery>>
 
 ---------------------------------------------------------------------------
 (* scheduler goroutine: schedule() *)
@@ -206,20 +215,20 @@ S_RecvErr ==
        /\ wk' = [wk EXCEPT ![i].pc = "done"]
        /\ sch' = [sch EXCEPT !.pc = "stopping", !.ctxc = TRUE, !.err = IF wk[i].life = 1 THEN "txerrsys" ELSE "txerr"]
        /\ stopped' = TRUE /\ tasks' = {}          \* stop(): pending timers are stopped
-  /\ UNCHANGED <<now, parent, term, egc, egerr, main, ret, nextId, mc, ls, lsown, intr, dl, lw, linkEv, ipc, inbox, fwd, held, rq, conn, nIn, nFlip, nHold, nQuery>>
+  /\ UNCHANGED <<now, parent, term, egc, egerr, main, ret, nextId, mc, ls, lsown, intr, dl, lw, linkEv, wcl, ipc, inbox, fwd, held, rq, conn, nIn, nFlip, nHold, nQuery>>
 
 S_CtxDone ==
   /\ sch.pc = "select" /\ SchC
   /\ sch' = [sch EXCEPT !.pc = "stopping"]
   /\ stopped' = TRUE /\ tasks' = {}               \* stop(): pending timers are stopped
-  /\ UNCHANGED <<now, parent, term, egc, egerr, main, ret, nextId, wk, mc, ls, lsown, intr, dl, lw, linkEv, ipc, inbox, fwd, held, rq, conn, nIn, nFlip, nHold, nQuery>>
+  /\ UNCHANGED <<now, parent, term, egc, egerr, main, ret, nextId, wk, mc, ls, lsown, intr, dl, lw, linkEv, wcl, ipc, inbox, fwd, held, rq, conn, nIn, nFlip, nHold, nQuery>>
 
 \* stop(): wg.Wait() for the workers that got past the stopped check
 S_Stopped ==
   /\ sch.pc = "stopping" /\ InFlight = {}
   /\ sch' = [sch EXCEPT !.pc = "done"]
   /\ IF sch.err # NONE THEN Fail(sch.err) ELSE UNCHANGED <<egc, egerr>>
-  /\ UNCHANGED <<now, parent, term, main, ret, stopped, tasks, nextId, wk, mc, ls, lsown, intr, dl, lw, linkEv, ipc, inbox, fwd, held, rq, conn, nIn, nFlip, nHold, nQuery>>
+  /\ UNCHANGED <<now, parent, term, main, ret, stopped, tasks, nextId, wk, mc, ls, lsown, intr, dl, lw, linkEv, wcl, ipc, inbox, fwd, held, rq, conn, nIn, nFlip, nHold, nQuery>>
 
 S_RecvIP ==
   /\ sch.pc = "select" /\ ipc # <<>>
@@ -235,7 +244,7 @@ S_RecvIP ==
                   /\ tasks' = tasks \cup {[id |-> nextId, at |-> now + dly, dst |-> d]}
                   /\ sch' = [sch EXCEPT !.last = now + dly]
                   /\ nextId' = nextId + 1
-  /\ UNCHANGED <<now, parent, term, egc, egerr, main, ret, stopped, wk, mc, ls, lsown, intr, dl, lw, linkEv, inbox, fwd, held, rq, conn, nIn, nFlip, nHold, nQuery>>
+  /\ UNCHANGED <<now, parent, term, egc, egerr, main, ret, stopped, wk, mc, ls, lsown, intr, dl, lw, linkEv, wcl, inbox, fwd, held, rq, conn, nIn, nFlip, nHold, nQuery>>
 
 \* a timer fires at its deadline into its own goroutine (a timer that fired
 \* just before stop() is not recalled by Stop: its goroutine meets `stopped`)
@@ -246,7 +255,7 @@ T_Fire ==
        /\ tasks' = tasks \ {tk}
        /\ wk' = [i \in (DOMAIN wk) \cup {tk.id} |->
                    IF i = tk.id THEN [pc |-> "start", dst |-> tk.dst, life |-> 0] ELSE wk[i]]
-  /\ UNCHANGED <<now, parent, term, egc, egerr, main, ret, sch, stopped, nextId, mc, ls, lsown, intr, dl, lw, linkEv, ipc, inbox, fwd, held, rq, conn, nIn, nFlip, nHold, nQuery>>
+  /\ UNCHANGED <<now, parent, term, egc, egerr, main, ret, sch, stopped, nextId, mc, ls, lsown, intr, dl, lw, linkEv, wcl, ipc, inbox, fwd, held, rq, conn, nIn, nFlip, nHold, nQuery>>
 
 ---------------------------------------------------------------------------
 (* send workers: work() -> sendWorker() -> send() -> buildRA() -> WriteTo *)
@@ -257,21 +266,26 @@ W_Start ==
                    IF stopped THEN "done"
                    ELSE IF UnicastOnly /\ IsMc(wk[i].dst) THEN "done"   \* nothing sent, nothing counted
                    ELSE "build"]
-  /\ UNCHANGED <<now, parent, term, egc, egerr, main, ret, sch, stopped, tasks, nextId, mc, ls, lsown, intr, dl, lw, linkEv, ipc, inbox, fwd, held, rq, conn, nIn, nFlip, nHold, nQuery>>
+  /\ UNCHANGED <<now, parent, term, egc, egerr, main, ret, sch, stopped, tasks, nextId, mc, ls, lsown, intr, dl, lw, linkEv, wcl, ipc, inbox, fwd, held, rq, conn, nIn, nFlip, nHold, nQuery>>
 
 W_Build ==     \* reads the forwarding flag: its own step, so a flip can fall before or after
   /\ \E i \in DOMAIN wk :
        /\ wk[i].pc = "build"
-       /\ wk' = [wk EXCEPT ![i].pc = "built", ![i].life = Life]
-  /\ rq' = Gen(rq)
-  /\ UNCHANGED <<now, parent, term, egc, egerr, main, ret, sch, stopped, tasks, nextId, mc, ls, lsown, intr, dl, lw, linkEv, ipc, inbox, fwd, held, conn, nIn, nFlip, nHold, nQuery>>
+       /\ \E res \in FwdRes :
+            IF res = "ok"
+            THEN /\ wk' = [wk EXCEPT ![i].pc = "built", ![i].life = Life]
+                 /\ rq' = Gen(rq)
+            ELSE \* sendWorker: logged, counted as a transmit error, reported to the scheduler
+                 /\ wk' = [wk EXCEPT ![i].pc = "errcount", ![i].life = IF res = "sys" THEN 1 ELSE 0]
+                 /\ rq' = OnFwd(rq, EvFwdErr(res))
+  /\ UNCHANGED <<now, parent, term, egc, egerr, main, ret, sch, stopped, tasks, nextId, mc, ls, lsown, intr, dl, lw, linkEv, wcl, ipc, inbox, fwd, held, conn, nIn, nFlip, nHold, nQuery>>
 
 W_WCall ==
   /\ \E i \in DOMAIN wk :
        /\ wk[i].pc = "built"
        /\ rq' = OnWCall(rq, EvWC(wk[i].dst, wk[i].life))
        /\ wk' = [wk EXCEPT ![i].pc = "wcall"]
-  /\ UNCHANGED <<now, parent, term, egc, egerr, main, ret, sch, stopped, tasks, nextId, mc, ls, lsown, intr, dl, lw, linkEv, ipc, inbox, fwd, held, conn, nIn, nFlip, nHold, nQuery>>
+  /\ UNCHANGED <<now, parent, term, egc, egerr, main, ret, sch, stopped, tasks, nextId, mc, ls, lsown, intr, dl, lw, linkEv, wcl, ipc, inbox, fwd, held, conn, nIn, nFlip, nHold, nQuery>>
 
 W_WRet ==
   /\ \E i \in DOMAIN wk :
@@ -279,7 +293,7 @@ W_WRet ==
        /\ \E res \in (IF WriteFaults THEN {"ok", "other", "sys"} ELSE {"ok"}) :
             /\ wk' = [wk EXCEPT ![i].pc = IF res = "ok" THEN "count" ELSE "errcount", ![i].life = IF res = "sys" THEN 1 ELSE 0]
             /\ rq' = OnWRet(rq, EvWRc(wk[i].dst, res))
-  /\ UNCHANGED <<now, parent, term, egc, egerr, main, ret, sch, stopped, tasks, nextId, mc, ls, lsown, intr, dl, lw, linkEv, ipc, inbox, fwd, held, conn, nIn, nFlip, nHold, nQuery>>
+  /\ UNCHANGED <<now, parent, term, egc, egerr, main, ret, sch, stopped, tasks, nextId, mc, ls, lsown, intr, dl, lw, linkEv, wcl, ipc, inbox, fwd, held, conn, nIn, nFlip, nHold, nQuery>>
 
 W_Count ==
   /\ \E i \in DOMAIN wk :
@@ -289,21 +303,21 @@ W_Count ==
                /\ wk' = [wk EXCEPT ![i].pc = "done"]
           ELSE /\ rq' = OnCnt(rq, EvCnt("txerr"))
                /\ wk' = [wk EXCEPT ![i].pc = "errsend"]
-  /\ UNCHANGED <<now, parent, term, egc, egerr, main, ret, sch, stopped, tasks, nextId, mc, ls, lsown, intr, dl, lw, linkEv, ipc, inbox, fwd, held, conn, nIn, nFlip, nHold, nQuery>>
+  /\ UNCHANGED <<now, parent, term, egc, egerr, main, ret, sch, stopped, tasks, nextId, mc, ls, lsown, intr, dl, lw, linkEv, wcl, ipc, inbox, fwd, held, conn, nIn, nFlip, nHold, nQuery>>
 
 \* select { errC <- err ; <-ctx.Done() }: the receive side is S_RecvErr
 W_ErrGiveUp ==
   /\ \E i \in DOMAIN wk :
        /\ wk[i].pc = "errsend" /\ SchC
        /\ wk' = [wk EXCEPT ![i].pc = "done"]
-  /\ UNCHANGED <<now, parent, term, egc, egerr, main, ret, sch, stopped, tasks, nextId, mc, ls, lsown, intr, dl, lw, linkEv, ipc, inbox, fwd, held, rq, conn, nIn, nFlip, nHold, nQuery>>
+  /\ UNCHANGED <<now, parent, term, egc, egerr, main, ret, sch, stopped, tasks, nextId, mc, ls, lsown, intr, dl, lw, linkEv, wcl, ipc, inbox, fwd, held, rq, conn, nIn, nFlip, nHold, nQuery>>
 
 ---------------------------------------------------------------------------
 (* unsolicited multicast loop: multicast() *)
 MC_Check ==
   /\ mc.pc = "check"
   /\ mc' = [mc EXCEPT !.pc = IF EgC THEN "done" ELSE "send"]
-  /\ UNCHANGED <<now, parent, term, egc, egerr, main, ret, sch, stopped, tasks, nextId, wk, ls, lsown, intr, dl, lw, linkEv, ipc, inbox, fwd, held, rq, conn, nIn, nFlip, nHold, nQuery>>
+  /\ UNCHANGED <<now, parent, term, egc, egerr, main, ret, sch, stopped, tasks, nextId, wk, ls, lsown, intr, dl, lw, linkEv, wcl, ipc, inbox, fwd, held, rq, conn, nIn, nFlip, nHold, nQuery>>
 
 MC_Send ==     \* select { <-ctx.Done() ; ipC <- all-nodes }, then arm the timer
   /\ mc.pc = "send"
@@ -312,13 +326,13 @@ MC_Send ==     \* select { <-ctx.Done() ; ipC <- all-nodes }, then arm the timer
         /\ ipc' = Append(ipc, ALLNODES)
         /\ \E d \in Waits(mc.i) :
              mc' = [pc |-> "wait", i |-> IF mc.i < InitCount THEN mc.i + 1 ELSE mc.i, timer |-> now + d]
-  /\ UNCHANGED <<now, parent, term, egc, egerr, main, ret, sch, stopped, tasks, nextId, wk, ls, lsown, intr, dl, lw, linkEv, inbox, fwd, held, rq, conn, nIn, nFlip, nHold, nQuery>>
+  /\ UNCHANGED <<now, parent, term, egc, egerr, main, ret, sch, stopped, tasks, nextId, wk, ls, lsown, intr, dl, lw, linkEv, wcl, inbox, fwd, held, rq, conn, nIn, nFlip, nHold, nQuery>>
 
 MC_Wake ==
   /\ mc.pc = "wait"
   /\ \/ EgC /\ mc' = [mc EXCEPT !.pc = "done"]
      \/ mc.timer <= now /\ mc' = [mc EXCEPT !.pc = "check"]
-  /\ UNCHANGED <<now, parent, term, egc, egerr, main, ret, sch, stopped, tasks, nextId, wk, ls, lsown, intr, dl, lw, linkEv, ipc, inbox, fwd, held, rq, conn, nIn, nFlip, nHold, nQuery>>
+  /\ UNCHANGED <<now, parent, term, egc, egerr, main, ret, sch, stopped, tasks, nextId, wk, ls, lsown, intr, dl, lw, linkEv, wcl, ipc, inbox, fwd, held, rq, conn, nIn, nFlip, nHold, nQuery>>
 
 ---------------------------------------------------------------------------
 (* listener goroutine: Listen() + receiveRetry(); interrupt goroutine *)
@@ -329,7 +343,7 @@ L_Top ==      \* top of receiveRetry: i := 0, ctx check, ReadFrom is called
   /\ ls.pc = "top"
   /\ ls' = [ls EXCEPT !.pc = Again, !.i = 0]
   /\ rq' = RCallIfReading(rq)
-  /\ UNCHANGED <<now, parent, term, egc, egerr, main, ret, sch, stopped, tasks, nextId, wk, mc, lsown, intr, dl, lw, linkEv, ipc, inbox, fwd, held, conn, nIn, nFlip, nHold, nQuery>>
+  /\ UNCHANGED <<now, parent, term, egc, egerr, main, ret, sch, stopped, tasks, nextId, wk, mc, lsown, intr, dl, lw, linkEv, wcl, ipc, inbox, fwd, held, conn, nIn, nFlip, nHold, nQuery>>
 
 L_Read ==
   /\ ls.pc = "read"
@@ -355,7 +369,7 @@ L_Read ==
                      /\ rq' = OnIn(rq, EvIn(IF msg.kind \in {"rasame", "radiff"} THEN "ra"
                                             ELSE IF msg.kind = "other" THEN "ns" ELSE msg.kind,
                                             msg.src, 255))
-  /\ UNCHANGED <<now, parent, term, egc, egerr, main, ret, sch, stopped, tasks, nextId, wk, mc, lsown, intr, dl, lw, linkEv, ipc, fwd, held, conn, nIn, nFlip, nHold, nQuery>>
+  /\ UNCHANGED <<now, parent, term, egc, egerr, main, ret, sch, stopped, tasks, nextId, wk, mc, lsown, intr, dl, lw, linkEv, wcl, ipc, fwd, held, conn, nIn, nFlip, nHold, nQuery>>
 
 L_Backoff ==
   /\ ls.pc = "backoff"
@@ -366,7 +380,7 @@ L_Backoff ==
                                !.pc = IF exhausted THEN (IF LsC THEN "exitwait" ELSE "errexit") ELSE Again,
                                !.msg = "exhausted"]
            /\ rq' = IF exhausted THEN rq ELSE RCallIfReading(rq)
-  /\ UNCHANGED <<now, parent, term, egc, egerr, main, ret, sch, stopped, tasks, nextId, wk, mc, lsown, intr, dl, lw, linkEv, ipc, inbox, fwd, held, conn, nIn, nFlip, nHold, nQuery>>
+  /\ UNCHANGED <<now, parent, term, egc, egerr, main, ret, sch, stopped, tasks, nextId, wk, mc, lsown, intr, dl, lw, linkEv, wcl, ipc, inbox, fwd, held, conn, nIn, nFlip, nHold, nQuery>>
 
 \* Advertiser.handle: counts the message; RS => destination for the scheduler;
 \* RA => builds our own RA (reads forwarding) and verifies; anything else => invalid
@@ -374,44 +388,49 @@ L_Handle ==
   /\ ls.pc = "handle"
   /\ LET msg == ls.msg
          r1  == OnCnt(rq, EvCnt("rx")) IN
-     /\ ls' = IF msg.kind = "rs" /\ ~MonitorMode
-              THEN [ls EXCEPT !.pc = "push", !.msg = IF msg.src = UNSPEC THEN ALLNODES ELSE msg.src]
-              ELSE [ls EXCEPT !.pc = "top", !.msg = NONE]
-     /\ rq' = CASE MonitorMode         -> r1                                  \* Monitor.handle: count, export, nothing else
-                [] msg.kind = "other"  -> OnCnt(r1, EvCnt("inv"))
-                [] msg.kind = "rasame" -> Gen(r1)                             \* buildRA for the comparison
-                [] msg.kind = "radiff" -> OnHook(Gen(r1), [life |-> Life, body |-> "b", t |-> now])
-                [] OTHER               -> r1
-  /\ UNCHANGED <<now, parent, term, egc, egerr, main, ret, sch, stopped, tasks, nextId, wk, mc, lsown, intr, dl, lw, linkEv, ipc, inbox, fwd, held, conn, nIn, nFlip, nHold, nQuery>>
+     \/ /\ ls' = IF msg.kind = "rs" /\ ~MonitorMode
+                 THEN [ls EXCEPT !.pc = "push", !.msg = IF msg.src = UNSPEC THEN ALLNODES ELSE msg.src]
+                 ELSE [ls EXCEPT !.pc = "top", !.msg = NONE]
+        /\ rq' = CASE MonitorMode         -> r1                                  \* Monitor.handle: count, export, nothing else
+                   [] msg.kind = "other"  -> OnCnt(r1, EvCnt("inv"))
+                   [] msg.kind = "rasame" -> Gen(r1)                             \* buildRA for the comparison
+                   [] msg.kind = "radiff" -> OnHook(Gen(r1), [life |-> Life, body |-> "b", t |-> now])
+                   [] OTHER               -> r1
+     \/ \* our own RA cannot be built for the comparison: handle fails, and with it Listen
+        /\ FwdFaults /\ ~MonitorMode /\ msg.kind \in {"rasame", "radiff"}
+        /\ \E c \in {"other", "sys"} :
+             /\ rq' = OnFwd(r1, EvFwdErr(c))
+             /\ ls' = [ls EXCEPT !.pc = "errexit", !.msg = IF c = "sys" THEN "readerrsys" ELSE "readerr"]
+  /\ UNCHANGED <<now, parent, term, egc, egerr, main, ret, sch, stopped, tasks, nextId, wk, mc, lsown, intr, dl, lw, linkEv, wcl, ipc, inbox, fwd, held, conn, nIn, nFlip, nHold, nQuery>>
 
 L_Push ==     \* select { <-ctx.Done() ; ipC <- ip }  (ctx of the errgroup)
   /\ ls.pc = "push"
   /\ \/ /\ EgC /\ ipc' = ipc
      \/ /\ Len(ipc) < ChanCap /\ ipc' = Append(ipc, ls.msg)
   /\ ls' = [ls EXCEPT !.pc = "top", !.msg = NONE]
-  /\ UNCHANGED <<now, parent, term, egc, egerr, main, ret, sch, stopped, tasks, nextId, wk, mc, lsown, intr, dl, lw, linkEv, inbox, fwd, held, rq, conn, nIn, nFlip, nHold, nQuery>>
+  /\ UNCHANGED <<now, parent, term, egc, egerr, main, ret, sch, stopped, tasks, nextId, wk, mc, lsown, intr, dl, lw, linkEv, wcl, inbox, fwd, held, rq, conn, nIn, nFlip, nHold, nQuery>>
 
 \* error return from Listen: deferred cancel() then eg.Wait() for the interrupt goroutine
 L_ErrCancel ==
   /\ ls.pc = "errexit"
   /\ ls' = [ls EXCEPT !.pc = "errwait"] /\ lsown' = TRUE
-  /\ UNCHANGED <<now, parent, term, egc, egerr, main, ret, sch, stopped, tasks, nextId, wk, mc, intr, dl, lw, linkEv, ipc, inbox, fwd, held, rq, conn, nIn, nFlip, nHold, nQuery>>
+  /\ UNCHANGED <<now, parent, term, egc, egerr, main, ret, sch, stopped, tasks, nextId, wk, mc, intr, dl, lw, linkEv, wcl, ipc, inbox, fwd, held, rq, conn, nIn, nFlip, nHold, nQuery>>
 
 L_ErrDone ==
   /\ ls.pc = "errwait" /\ intr = "done"
   /\ ls' = [ls EXCEPT !.pc = "done"]
   /\ Fail(ls.msg)
-  /\ UNCHANGED <<now, parent, term, main, ret, sch, stopped, tasks, nextId, wk, mc, lsown, intr, dl, lw, linkEv, ipc, inbox, fwd, held, rq, conn, nIn, nFlip, nHold, nQuery>>
+  /\ UNCHANGED <<now, parent, term, main, ret, sch, stopped, tasks, nextId, wk, mc, lsown, intr, dl, lw, linkEv, wcl, ipc, inbox, fwd, held, rq, conn, nIn, nFlip, nHold, nQuery>>
 
 L_ExitWait ==
   /\ ls.pc = "exitwait" /\ intr = "done"
   /\ ls' = [ls EXCEPT !.pc = "done"]
-  /\ UNCHANGED <<now, parent, term, egc, egerr, main, ret, sch, stopped, tasks, nextId, wk, mc, lsown, intr, dl, lw, linkEv, ipc, inbox, fwd, held, rq, conn, nIn, nFlip, nHold, nQuery>>
+  /\ UNCHANGED <<now, parent, term, egc, egerr, main, ret, sch, stopped, tasks, nextId, wk, mc, lsown, intr, dl, lw, linkEv, wcl, ipc, inbox, fwd, held, rq, conn, nIn, nFlip, nHold, nQuery>>
 
 I_Fire ==
   /\ intr = "wait" /\ LsC
   /\ intr' = "done" /\ dl' = TRUE
-  /\ UNCHANGED <<now, parent, term, egc, egerr, main, ret, sch, stopped, tasks, nextId, wk, mc, ls, lsown, lw, linkEv, ipc, inbox, fwd, held, rq, conn, nIn, nFlip, nHold, nQuery>>
+  /\ UNCHANGED <<now, parent, term, egc, egerr, main, ret, sch, stopped, tasks, nextId, wk, mc, ls, lsown, lw, linkEv, wcl, ipc, inbox, fwd, held, rq, conn, nIn, nFlip, nHold, nQuery>>
 
 ---------------------------------------------------------------------------
 (* link-state watcher goroutine: linkStateWatcher() *)
@@ -419,7 +438,8 @@ LW_Step ==
   /\ lw = "wait"
   /\ \/ /\ linkEv /\ lw' = "done" /\ Fail("linkchange")
      \/ /\ EgC /\ lw' = "done" /\ UNCHANGED <<egc, egerr>>
-  /\ UNCHANGED <<now, parent, term, main, ret, sch, stopped, tasks, nextId, wk, mc, ls, lsown, intr, dl, linkEv, ipc, inbox, fwd, held, rq, conn, nIn, nFlip, nHold, nQuery>>
+     \/ /\ wcl /\ ~linkEv /\ lw' = "done" /\ UNCHANGED <<egc, egerr>>      \* closed channel: returns nil, not a link change
+  /\ UNCHANGED <<now, parent, term, main, ret, sch, stopped, tasks, nextId, wk, mc, ls, lsown, intr, dl, linkEv, wcl, ipc, inbox, fwd, held, rq, conn, nIn, nFlip, nHold, nQuery>>
 
 ---------------------------------------------------------------------------
 Internal == M_InitSend \/ M_EgDone \/ D_Redial \/ M_ShutCall \/ M_ShutRet
@@ -442,7 +462,7 @@ E_Query ==
              IF api THEN OnApi(r1, [ok |-> TRUE, life |-> Life, t |-> now])
              ELSE OnScrape(r1, [ok |-> TRUE, fwd |-> fwd, misconf |-> ~fwd /\ CfgLife > 0, t |-> now])
   /\ nQuery' = nQuery + 1
-  /\ UNCHANGED <<now, parent, term, egc, egerr, main, ret, sch, stopped, tasks, nextId, wk, mc, ls, lsown, intr, dl, lw, linkEv, ipc, inbox, fwd, held, conn, nIn, nFlip, nHold>>
+  /\ UNCHANGED <<now, parent, term, egc, egerr, main, ret, sch, stopped, tasks, nextId, wk, mc, ls, lsown, intr, dl, lw, linkEv, wcl, ipc, inbox, fwd, held, conn, nIn, nFlip, nHold>>
 
 \* messages arrive at quiescent points, or back to back while earlier ones are
 \* still queued (bursts overtake the listener); a message arriving in the middle
@@ -452,45 +472,50 @@ E_Arrive ==
   /\ Quiescent \/ inbox # <<>>
   /\ \E msg \in Msgs : inbox' = Append(inbox, msg)
   /\ nIn' = nIn + 1
-  /\ UNCHANGED <<now, parent, term, egc, egerr, main, ret, sch, stopped, tasks, nextId, wk, mc, ls, lsown, intr, dl, lw, linkEv, ipc, fwd, held, rq, conn, nFlip, nHold, nQuery>>
+  /\ UNCHANGED <<now, parent, term, egc, egerr, main, ret, sch, stopped, tasks, nextId, wk, mc, ls, lsown, intr, dl, lw, linkEv, wcl, ipc, fwd, held, rq, conn, nFlip, nHold, nQuery>>
 
 E_Cancel ==
   /\ AllowCancel /\ Quiescent /\ parent = "live" /\ main = "egwait"
   /\ parent' = "canceled"
   /\ \E b \in BOOLEAN : /\ term' = b
                         /\ rq' = OnCancel(OnQuiet(rq, EvT), [term |-> b, t |-> now])
-  /\ UNCHANGED <<now, egc, egerr, main, ret, sch, stopped, tasks, nextId, wk, mc, ls, lsown, intr, dl, lw, linkEv, ipc, inbox, fwd, held, conn, nIn, nFlip, nHold, nQuery>>
+  /\ UNCHANGED <<now, egc, egerr, main, ret, sch, stopped, tasks, nextId, wk, mc, ls, lsown, intr, dl, lw, linkEv, wcl, ipc, inbox, fwd, held, conn, nIn, nFlip, nHold, nQuery>>
+
+E_WClose ==
+  /\ LinkFaults /\ Quiescent /\ ~wcl /\ main = "egwait"
+  /\ wcl' = TRUE
+  /\ UNCHANGED <<now, parent, term, egc, egerr, main, ret, sch, stopped, tasks, nextId, wk, mc, ls, lsown, intr, dl, lw, linkEv, ipc, inbox, fwd, held, rq, conn, nIn, nFlip, nHold, nQuery>>
 
 E_Link ==
-  /\ LinkFaults /\ Quiescent /\ ~linkEv /\ main = "egwait" /\ lw = "wait"
+  /\ LinkFaults /\ Quiescent /\ ~linkEv /\ ~wcl /\ main = "egwait" /\ lw = "wait"
   /\ linkEv' = TRUE /\ rq' = OnLink(OnQuiet(rq, EvT), EvT)
-  /\ UNCHANGED <<now, parent, term, egc, egerr, main, ret, sch, stopped, tasks, nextId, wk, mc, ls, lsown, intr, dl, lw, ipc, inbox, fwd, held, conn, nIn, nFlip, nHold, nQuery>>
+  /\ UNCHANGED <<now, parent, term, egc, egerr, main, ret, sch, stopped, tasks, nextId, wk, mc, ls, lsown, intr, dl, lw, wcl, ipc, inbox, fwd, held, conn, nIn, nFlip, nHold, nQuery>>
 
 E_Flip ==
   /\ nFlip < MaxFlips
   /\ fwd' = ~fwd /\ nFlip' = nFlip + 1
-  /\ UNCHANGED <<now, parent, term, egc, egerr, main, ret, sch, stopped, tasks, nextId, wk, mc, ls, lsown, intr, dl, lw, linkEv, ipc, inbox, held, rq, conn, nIn, nHold, nQuery>>
+  /\ UNCHANGED <<now, parent, term, egc, egerr, main, ret, sch, stopped, tasks, nextId, wk, mc, ls, lsown, intr, dl, lw, linkEv, wcl, ipc, inbox, held, rq, conn, nIn, nHold, nQuery>>
 
 \* the driver holds a destination's WriteTo open (slow transmit) and lets it go
 E_Hold ==
   /\ nHold < MaxHolds /\ main = "egwait"
   /\ \E d \in (Hosts \cup {ALLNODES}) \ held : held' = held \cup {d}
   /\ nHold' = nHold + 1 /\ rq' = OnHold(rq, EvT)
-  /\ UNCHANGED <<now, parent, term, egc, egerr, main, ret, sch, stopped, tasks, nextId, wk, mc, ls, lsown, intr, dl, lw, linkEv, ipc, inbox, fwd, conn, nIn, nFlip, nQuery>>
+  /\ UNCHANGED <<now, parent, term, egc, egerr, main, ret, sch, stopped, tasks, nextId, wk, mc, ls, lsown, intr, dl, lw, linkEv, wcl, ipc, inbox, fwd, conn, nIn, nFlip, nQuery>>
 
 E_Release ==
   /\ Quiescent /\ held # {}
   /\ \E d \in held : held' = held \ {d}
   /\ rq' = OnRelease(rq, EvT)
-  /\ UNCHANGED <<now, parent, term, egc, egerr, main, ret, sch, stopped, tasks, nextId, wk, mc, ls, lsown, intr, dl, lw, linkEv, ipc, inbox, fwd, conn, nIn, nFlip, nHold, nQuery>>
+  /\ UNCHANGED <<now, parent, term, egc, egerr, main, ret, sch, stopped, tasks, nextId, wk, mc, ls, lsown, intr, dl, lw, linkEv, wcl, ipc, inbox, fwd, conn, nIn, nFlip, nHold, nQuery>>
 
 Tick ==
   /\ Quiescent /\ now < MaxT
   /\ now' = now + 1
   /\ rq' = OnAdvance(OnQuiet(rq, EvT), [to |-> now + 1, t |-> now])
-  /\ UNCHANGED <<parent, term, egc, egerr, main, ret, sch, stopped, tasks, nextId, wk, mc, ls, lsown, intr, dl, lw, linkEv, ipc, inbox, fwd, held, conn, nIn, nFlip, nHold, nQuery>>
+  /\ UNCHANGED <<parent, term, egc, egerr, main, ret, sch, stopped, tasks, nextId, wk, mc, ls, lsown, intr, dl, lw, linkEv, wcl, ipc, inbox, fwd, held, conn, nIn, nFlip, nHold, nQuery>>
 
-Next == Internal \/ E_Arrive \/ E_Cancel \/ E_Link \/ E_Flip \/ E_Hold \/ E_Release \/ E_Query \/ Tick
+Next == Internal \/ E_Arrive \/ E_Cancel \/ E_Link \/ E_WClose \/ E_Flip \/ E_Hold \/ E_Release \/ E_Query \/ Tick
 Spec == Init /\ [][Next]_vars
 FairSpec == Spec /\ WF_vars(Internal) /\ WF_vars(Tick) /\ WF_vars(E_Release)
 
